@@ -220,7 +220,9 @@ type Snapshot struct {
 	// TermTime: the termination deadline carried by the (single) claim's annotation, if any and well-formed
 	TermTime *int64    `json:"termTime"`
 	Pods     []PodFact `json:"pods"` // pods bound to the node
-	VAs      []string  `json:"vas"`  // volume attachments of the node (names)
+	VAs      []string  `json:"vas"`  // volume attachments of the node (names): every object that exists in the store
+	// VAsTerminating: those of VAs that carry a deletionTimestamp (held by a finalizer; they still exist)
+	VAsTerminating []string `json:"vasTerminating"`
 	Instance string    `json:"instance"`
 	// Lost: an instance launched for the claim, other than the one its status.providerID names, still exists
 	Lost bool `json:"lost"`
@@ -559,7 +561,7 @@ func termTimeOf(nc *v1.NodeClaim) *int64 {
 
 // snapshot reads the ground truth straight from the store (never through karpenter's helpers).
 func (w *world) snapshot(obj client.Object) *Snapshot {
-	s := &Snapshot{Now: rel(w.clk.Now()), Pods: []PodFact{}, VAs: []string{}}
+	s := &Snapshot{Now: rel(w.clk.Now()), Pods: []PodFact{}, VAs: []string{}, VAsTerminating: []string{}}
 	switch o := obj.(type) {
 	case *corev1.Node:
 		cur := w.node(o.Name)
@@ -590,6 +592,9 @@ func (w *world) snapshot(obj client.Object) *Snapshot {
 		for _, va := range w.vas() {
 			if va.Spec.NodeName == cur.Name {
 				s.VAs = append(s.VAs, va.Name)
+				if va.DeletionTimestamp != nil {
+					s.VAsTerminating = append(s.VAsTerminating, va.Name)
+				}
 			}
 		}
 		s.Instance = w.cp.state(cur.Spec.ProviderID)
